@@ -65,6 +65,12 @@ def build_grid(spec):
     raise ValueError(c)
 
 
+def field_label(fs):
+    """Labels from a pool of three (mostly none): py-pde compares the attributes of states, which include the label, when
+    it decides whether prepared functions can be used again - fields with a unique label each would never meet that path."""
+    return (None, None, "c", None, "phi")[int(fs.get("seed", 0)) % 5]
+
+
 def grid_periodic(spec):
     if spec["cls"] in ("PolarSymGrid", "SphericalSymGrid"):
         return [False]
@@ -193,7 +199,7 @@ class Live:
         if fid not in self.fields:
             fs = self.h["fields"][fid]
             grid = self.grid(fs["grid"])
-            self.fields[fid] = field_cls(fs["rank"])(grid, initial_data(fs, grid), label=fid)
+            self.fields[fid] = field_cls(fs["rank"])(grid, initial_data(fs, grid), label=field_label(fs))
         return self.fields[fid]
 
     def coll(self, cid):
@@ -255,7 +261,7 @@ class Fresh(Live):
         if fid not in self.fields:
             fs = self.h["fields"][fid]
             grid = self.grid(fs["grid"])
-            self.fields[fid] = field_cls(fs["rank"])(grid, np.array(self.snap["fields"][fid], copy=True), label=fid)
+            self.fields[fid] = field_cls(fs["rank"])(grid, np.array(self.snap["fields"][fid], copy=True), label=field_label(fs))
         return self.fields[fid]
 
     def coll(self, cid):
